@@ -78,6 +78,9 @@ func VerifAuditLoop(cfgText string, events []VerifEvent, earlyExit bool) (res Ve
 		st:      makeCollectorState(cfg),
 		logger:  log.NewSecondaryLogger(ctx, nil, "collector", true, false),
 	}
+	// short-lived loggers: give their files back when the run is over
+	defer log.VerifRelease(au.logger)
+	defer log.VerifRelease(col.logger)
 	of := newOutputFiles()
 
 	for _, n := range cfg.audienceNames {
